@@ -1,9 +1,20 @@
-#!/bin/sh
-# usage: tools/try_seed.sh <patch.diff> <check id> [extra args]  -- apply a seeded change to /repo, run the check, always undo
+#!/bin/bash
+# usage: tools/try_seed.sh <patch.diff> <check id> [extra args]
+# Runs a check against a seeded change.  Default: in a throw-away worktree of /repo HEAD (so that several seeds can be tried while
+# /repo itself stays untouched; the check is pointed at it through VERIF_REPO).  With VERIF_SEED_INPLACE=1 the patch is applied to
+# /repo itself and undone afterwards (the way the brief describes).
 patch="$(realpath "$1")"; id="$2"; shift 2
-git -C /repo diff --quiet || { echo "/repo has local modifications"; exit 2; }
-git -C /repo apply "$patch" 2>/dev/null || (cd /repo && patch -p1 -F 5 -s --no-backup-if-mismatch < "$patch") || { echo "patch does not apply"; git -C /repo checkout -- .; exit 2; }
-VERIF_NO_EVIDENCE=1 /verif/check "$id" "$@"; rc=$?
-git -C /repo checkout -- . ; git -C /repo clean -fdq -- tooling
+if [ -n "$VERIF_SEED_INPLACE" ]; then
+  git -C /repo diff --quiet || { echo "/repo has local modifications"; exit 2; }
+  git -C /repo apply "$patch" 2>/dev/null || (cd /repo && patch -p1 -F 5 -s --no-backup-if-mismatch < "$patch") || { echo "patch does not apply"; git -C /repo checkout -- .; exit 2; }
+  VERIF_NO_EVIDENCE=1 /verif/check "$id" "$@"; rc=$?
+  git -C /repo checkout -- . ; git -C /repo clean -fdq -- tooling
+else
+  wt=$(mktemp -d /tmp/seedrun-XXXXXX); rmdir "$wt"
+  git -C /repo worktree add --detach "$wt" HEAD >/dev/null 2>&1 || { echo "worktree failed"; exit 2; }
+  (cd "$wt" && (git apply "$patch" 2>/dev/null || patch -p1 -F 5 -s --no-backup-if-mismatch < "$patch")) || { echo "patch does not apply"; git -C /repo worktree remove --force "$wt"; exit 2; }
+  VERIF_REPO="$wt" VERIF_NO_EVIDENCE=1 /verif/check "$id" "$@"; rc=$?
+  git -C /repo worktree remove --force "$wt" >/dev/null 2>&1; rm -rf "$wt"
+fi
 echo "check exit=$rc"
 exit $rc
